@@ -301,3 +301,30 @@ def key_ops(repo):
     body = ",\n".join(f"  ({lean_str(r)}, {lean_str(alg)}, {lean_str(cls)}, {lean_str_list(a)}, {lean_str_list(b)})" for r, alg, cls, a, b in rows)
     return ("namespace Generated.KeyOps\n\n/-- (registry, alg, implementing class, operations checked on the caller's key when producing, … when consuming) -/\n"
             "def keyOps : List (String × String × String × List String × List String) := [\n" + body + "]\n\nend Generated.KeyOps\n")
+
+
+@emitter("Jwe.lean")
+def jwe(repo):
+    """JWE registries as registered on JsonWebEncryption: content-encryption algorithms (CEK / IV sizes, key and tag octets, hash) and
+    key-management algorithms (class, key size)."""
+    from authlib.jose import JsonWebEncryption
+    lines = ["/- GENERATED by harness/extract_data.py from authlib/jose/rfc7518/jwe_encs.py, jwe_algs.py, jwe_zips.py — do not edit -/", "namespace Generated.Jwe", ""]
+    lines.append("/-- `JsonWebEncryption.ENC_REGISTRY`: (name, class, CEK_SIZE bits, IV_SIZE bits, key_len octets (0 = n/a), hash name ('' = n/a)) -/")
+    items = []
+    rfc7518 = lambda a: type(a).__module__.startswith("authlib.jose.rfc7518")      # (the draft algorithms are registered only on request)
+    for name, a in sorted((n, a) for n, a in JsonWebEncryption.ENC_REGISTRY.items() if rfc7518(a)):
+        h = getattr(a, "hash_alg", None)
+        hname = h().name if h else ""
+        items.append(f"  ({lean_str(name)}, {lean_str(type(a).__name__)}, {int(a.CEK_SIZE)}, {int(a.IV_SIZE)}, {int(getattr(a, 'key_len', 0) or 0)}, {lean_str(hname)})")
+    lines.append("def encRegistry : List (String × String × Nat × Nat × Nat × String) := [\n" + ",\n".join(items) + "]")
+    lines.append("")
+    lines.append("/-- `JsonWebEncryption.ALG_REGISTRY`: (name, class, key_size bits (0 = none)) -/")
+    items = []
+    for name, a in sorted((n, a) for n, a in JsonWebEncryption.ALG_REGISTRY.items() if rfc7518(a)):
+        items.append(f"  ({lean_str(name)}, {lean_str(type(a).__name__)}, {int(getattr(a, 'key_size', 0) or 0)})")
+    lines.append("def algRegistry : List (String × String × Nat) := [\n" + ",\n".join(items) + "]")
+    lines.append("")
+    lines.append("def zipRegistry : List String := " + lean_str_list(sorted(JsonWebEncryption.ZIP_REGISTRY)))
+    lines.append("")
+    lines.append("end Generated.Jwe")
+    return "\n".join(lines) + "\n"
